@@ -1263,6 +1263,42 @@ pub fn oracle_c11(rng: &mut Rng, tier: &str) -> Report {
                 rep.nontrivial += 1;
             }
         }
+        // the same file placed at an address that is NOT a multiple of 8 (what a reader sees when the
+        // file sits inside another buffer): the parser may refuse it, but whatever it accepts — the
+        // full file or a torn tail — must answer exactly like the file read from an aligned address
+        if i % 4 == 1 || i < 40 {
+            let words = (bytes.len() + 7) / 8 + 2;
+            let store: &'static mut [u64] = Box::leak(vec![0u64; words].into_boxed_slice());
+            let base = store.as_mut_ptr() as *mut u8;
+            for shift in 1..8usize {
+                unsafe {
+                    std::ptr::write_bytes(base, 0, words * 8);
+                    std::ptr::copy_nonoverlapping(bytes.as_ptr(), base.add(shift), bytes.len());
+                }
+                for k in (bytes.len().saturating_sub(9)..=bytes.len()).rev() {
+                    rep.checks += 1;
+                    let p: &'static [u8] = unsafe { std::slice::from_raw_parts(base.add(shift) as *const u8, k) };
+                    match catch_unwind(AssertUnwindSafe(|| proto::cur::parse_cache(p))) {
+                        Err(_) => rep.fail("parse panicked on a file at an unaligned address", vec![format!("BUF {}", hx(&bytes[..k])), format!("# placed at an address = {} (mod 8)", shift)], String::new()),
+                        Ok(Err(_)) => rep.count("unaligned_rejected"),
+                        Ok(Ok(pc)) => {
+                            rep.count("unaligned_accepted");
+                            let got = cache_answers_cur(&pc, &qs);
+                            for ((q, a), b) in qs.iter().zip(want.iter()).zip(got.iter()) {
+                                if a != b {
+                                    rep.fail(
+                                        "a file (or torn tail) accepted at an unaligned address answers differently from the file at an aligned address",
+                                        vec![format!("BUF {}", hx(&bytes)), q.op(true), format!("# the first {} of its {} bytes placed at an address = {} (mod 8)", k, bytes.len(), shift), q.op(true)],
+                                        format!("aligned full={} unaligned={}", a, b),
+                                    );
+                                    break;
+                                }
+                            }
+                        }
+                    }
+                }
+            }
+        }
         if i < 2 {
             rep.sample(format!("{} byte cache, {} prefixes", bytes.len(), bytes.len() / step));
         }
@@ -1309,6 +1345,160 @@ pub fn oracle_c11(rng: &mut Rng, tier: &str) -> Report {
             }
         }
     }
+    rep
+}
+
+// ------------------------------------------------------------------ C18: inputs at size thresholds
+
+/// SHA-1 (FIPS 180-4), written here so that the expectation does not come from the crate's own
+/// dependency; streaming, so that multi-GiB inputs need no second copy.
+pub struct Sha1 {
+    h: [u32; 5],
+    buf: [u8; 64],
+    fill: usize,
+    len: u64,
+}
+
+impl Sha1 {
+    pub fn new() -> Self {
+        Sha1 { h: [0x67452301, 0xEFCDAB89, 0x98BADCFE, 0x10325476, 0xC3D2E1F0], buf: [0; 64], fill: 0, len: 0 }
+    }
+    fn block(h: &mut [u32; 5], b: &[u8]) {
+        let mut w = [0u32; 80];
+        for i in 0..16 {
+            w[i] = u32::from_be_bytes([b[4 * i], b[4 * i + 1], b[4 * i + 2], b[4 * i + 3]]);
+        }
+        for i in 16..80 {
+            w[i] = (w[i - 3] ^ w[i - 8] ^ w[i - 14] ^ w[i - 16]).rotate_left(1);
+        }
+        let (mut a, mut bb, mut c, mut d, mut e) = (h[0], h[1], h[2], h[3], h[4]);
+        for i in 0..80 {
+            let (f, k) = match i / 20 {
+                0 => ((bb & c) | (!bb & d), 0x5A827999u32),
+                1 => (bb ^ c ^ d, 0x6ED9EBA1),
+                2 => ((bb & c) | (bb & d) | (c & d), 0x8F1BBCDC),
+                _ => (bb ^ c ^ d, 0xCA62C1D6),
+            };
+            let t = a.rotate_left(5).wrapping_add(f).wrapping_add(e).wrapping_add(k).wrapping_add(w[i]);
+            e = d;
+            d = c;
+            c = bb.rotate_left(30);
+            bb = a;
+            a = t;
+        }
+        h[0] = h[0].wrapping_add(a);
+        h[1] = h[1].wrapping_add(bb);
+        h[2] = h[2].wrapping_add(c);
+        h[3] = h[3].wrapping_add(d);
+        h[4] = h[4].wrapping_add(e);
+    }
+    pub fn update(&mut self, mut data: &[u8]) {
+        self.len += data.len() as u64;
+        if self.fill > 0 {
+            let take = (64 - self.fill).min(data.len());
+            self.buf[self.fill..self.fill + take].copy_from_slice(&data[..take]);
+            self.fill += take;
+            data = &data[take..];
+            if self.fill == 64 {
+                let b = self.buf;
+                Self::block(&mut self.h, &b);
+                self.fill = 0;
+            }
+        }
+        while data.len() >= 64 {
+            Self::block(&mut self.h, &data[..64]);
+            data = &data[64..];
+        }
+        if !data.is_empty() {
+            self.buf[..data.len()].copy_from_slice(data);
+            self.fill = data.len();
+        }
+    }
+    pub fn finish(mut self) -> [u8; 20] {
+        let bits = self.len.wrapping_mul(8);
+        let mut pad = vec![0x80u8];
+        while (self.fill + pad.len()) % 64 != 56 {
+            pad.push(0);
+        }
+        pad.extend_from_slice(&bits.to_be_bytes());
+        let l = self.len;
+        self.update(&pad);
+        self.len = l;
+        let mut out = [0u8; 20];
+        for i in 0..5 {
+            out[4 * i..4 * i + 4].copy_from_slice(&self.h[i].to_be_bytes());
+        }
+        out
+    }
+}
+
+pub fn uuid_v5(ns: &[u8; 16], data: &[u8]) -> [u8; 16] {
+    let mut h = Sha1::new();
+    h.update(ns);
+    h.update(data);
+    let d = h.finish();
+    let mut u = [0u8; 16];
+    u.copy_from_slice(&d[..16]);
+    u[6] = (u[6] & 0x0f) | 0x50;
+    u[8] = (u[8] & 0x3f) | 0x80;
+    u
+}
+
+/// The identifier of very large inputs: a three-line mapping followed by line feeds up to sizes
+/// around 2^16, 2^24 (quick) and 2^31, 2^32 (thorough; 4 GiB of memory): every byte given to `new`
+/// counts, whatever the size.
+pub fn oracle_c18(tier: &str) -> Report {
+    let mut rep = Report::new();
+    const NS_DNS: [u8; 16] = [0x6b, 0xa7, 0xb8, 0x10, 0x9d, 0xad, 0x11, 0xd1, 0x80, 0xb4, 0x00, 0xc0, 0x4f, 0xd4, 0x30, 0xc8];
+    let ns = uuid_v5(&NS_DNS, b"guardsquare.com");
+    // self-test of the SHA-1 above (FIPS 180 vectors)
+    let mut h = Sha1::new();
+    h.update(b"abc");
+    if proto::hexs(&h.finish()) != "a9993e364706816aba3e25717850c26c9cd0d89d" {
+        rep.fail("harness SHA-1 self-test failed", vec![], String::new());
+        return rep;
+    }
+    let mut sizes: Vec<usize> = vec![0, 1, 55, 56, 63, 64, 65, 119, 120, (1 << 16) - 1, 1 << 16, (1 << 16) + 1, (1 << 24) - 1, 1 << 24, (1 << 24) + 1];
+    if thorough(tier) {
+        sizes.extend_from_slice(&[(1usize << 31) - 1, 1 << 31, (1 << 31) + 1, (1usize << 32) - 1, 1 << 32, (1usize << 32) + 1]);
+    }
+    let head = b"o.A -> a:\n    1:2:void m():3:4 -> b\no.B -> c:\n";
+    let maxn = *sizes.iter().max().unwrap();
+    let mut buf: Vec<u8> = vec![b'\n'; maxn];
+    let k = head.len().min(maxn);
+    buf[..k].copy_from_slice(&head[..k]);
+    for &n in &sizes {
+        rep.checks += 1;
+        let data = &buf[..n];
+        let got = match catch_unwind(AssertUnwindSafe(|| *ProguardMapping::new(data).uuid().as_bytes())) {
+            Ok(g) => g,
+            Err(_) => {
+                rep.fail("uuid() panicked", vec![format!("# a {}-byte input: three mapping lines followed by line feeds", n)], String::new());
+                continue;
+            }
+        };
+        let want = uuid_v5(&ns, data);
+        if got != want {
+            rep.fail(
+                "the identifier is not the version-5 UUID of the bytes given to new()",
+                vec![format!("# a {}-byte input: three mapping lines followed by line feeds", n)],
+                format!("got {} expected {}", proto::hexs(&got), proto::hexs(&want)),
+            );
+        } else {
+            rep.nontrivial += 1;
+        }
+        // a section of that size inside a larger parent
+        if n + 2 <= maxn && n < (1 << 25) {
+            rep.checks += 1;
+            let sec = ProguardMapping::new(&buf[..n + 2]).section(1..n + 1);
+            let want = uuid_v5(&ns, &buf[1..n + 1]);
+            if *sec.uuid().as_bytes() != want {
+                rep.fail("the identifier of a section is not the version-5 UUID of the section's bytes",
+                         vec![format!("# section 1..{} of a {}-byte input", n + 1, n + 2)], String::new());
+            }
+        }
+    }
+    rep.sample(format!("sizes {:?}", sizes));
     rep
 }
 
@@ -1979,6 +2169,66 @@ fn static_assertions() {
     assert_send_sync::<proguard::MappingSummary<'static>>();
     assert_send_sync::<proguard::ParseError<'static>>();
     assert_send_sync::<proguard::LineMapping>();
+    assert_send_sync::<Result<ProguardCache<'static>, proguard::CacheError>>();
+    assert_send_sync::<Option<proguard::DeobfuscatedSignature>>();
+    assert_send_sync::<Result<proguard::ProguardRecord<'static>, proguard::ParseError<'static>>>();
+    assert_send_sync::<Result<StackTrace<'static>, std::fmt::Error>>();
+    fn is_error<T: std::error::Error + Send + Sync + 'static>() {}
+    is_error::<proguard::CacheError>();
+    is_error::<proguard::ParseError<'static>>();
+}
+
+fn val_send_sync<T: Send + Sync>(v: T) -> T {
+    v
+}
+
+/// the same for every value whose type cannot be named (`impl Trait` returns, items of the debug
+/// iterators, display adaptors) and for the results of every public query: never called, only
+/// type-checked
+#[allow(dead_code, unused_must_use)]
+fn static_assertions_by_value(mapper: &ProguardMapper<'static>, cache: &ProguardCache<'static>, mapping: &ProguardMapping<'static>,
+                              frame: &StackFrame<'static>, thr: &Throwable<'static>, trace: &StackTrace<'static>,
+                              sig: &proguard::DeobfuscatedSignature) {
+    let mut it = val_send_sync(sig.parameters_types());
+    val_send_sync(it.next());
+    val_send_sync(sig.return_type());
+    val_send_sync(sig.format_signature());
+    let mut it = val_send_sync(cache.debug_classes());
+    val_send_sync(it.next());
+    let mut it = val_send_sync(cache.debug_members());
+    val_send_sync(it.next());
+    let mut it = val_send_sync(cache.debug_members_by_params());
+    val_send_sync(it.next());
+    val_send_sync(cache.display());
+    val_send_sync(cache.test());
+    let mut it = val_send_sync(cache.remap_frame(frame));
+    val_send_sync(it.next());
+    let mut it = val_send_sync(mapper.remap_frame(frame));
+    val_send_sync(it.next());
+    val_send_sync(cache.remap_class("a"));
+    val_send_sync(mapper.remap_class("a"));
+    val_send_sync(cache.remap_method("a", "b"));
+    val_send_sync(mapper.remap_method("a", "b"));
+    val_send_sync(cache.remap_throwable(thr));
+    val_send_sync(mapper.remap_throwable(thr));
+    val_send_sync(cache.remap_stacktrace_typed(trace));
+    val_send_sync(mapper.remap_stacktrace_typed(trace));
+    val_send_sync(cache.remap_stacktrace("x"));
+    val_send_sync(mapper.remap_stacktrace("x"));
+    val_send_sync(mapper.deobfuscate_signature("()V"));
+    val_send_sync(cache.deobfuscate_signature("()V"));
+    let mut it = val_send_sync(mapping.iter());
+    val_send_sync(it.next());
+    val_send_sync(mapping.summary());
+    val_send_sync(mapping.section(0..0));
+    val_send_sync(ProguardCache::parse(&[]));
+    val_send_sync(StackTrace::try_parse(b""));
+    val_send_sync(StackFrame::try_parse(b""));
+    val_send_sync(Throwable::try_parse(b""));
+    val_send_sync(trace.exception());
+    val_send_sync(trace.frames());
+    val_send_sync(trace.cause());
+    val_send_sync(format!("{}", trace));
 }
 
 /// One method name with 10 000 entries whose ranges are NOT ascending (two interleaved runs):
@@ -2127,6 +2377,7 @@ pub fn run_oracle(prop: &str, tier: &str, seed: u64) -> Option<Report> {
         "C10" => oracle_c10(&mut rng, tier),
         "C11" => oracle_c11(&mut rng, tier),
         "C14" => oracle_c14(seed, tier),
+        "C18" => oracle_c18(tier),
         "C15" => oracle_c15(&mut rng, tier),
         "C17" => oracle_c17(&mut rng, tier),
         "C20" => oracle_c20(&mut rng, tier),
